@@ -179,6 +179,9 @@ void pbt_run(const Case& cs, Ctx& ctx) {
     if (op.name == "fault") { LedgerPause lp; srv::st().faults.push_back(srv::Fault{(int)(((op.a[0] % 4) + 4) % 4), op.a[1] < 1 ? 1 : op.a[1]}); }
     else h.ops.push_back(&op);
   }
+  // the virtual clock must be in force before the Server exists: its constructor and time() read the clock, and a timer whose due
+  // time was taken from the real clock (milliseconds since boot) lies arbitrarily far in the virtual past or future
+  srv::st().active = true;
   Server* server = new Server; h.srvp = server;
   long sndbuf = cs.param("sndbuf", 0); if (sndbuf > 0) server->setSendBufferSize((int)sndbuf);
   for (int i = 0; i < NC; ++i) {
